@@ -531,8 +531,13 @@ class SlotNode(BaseNode):
         # ```
         #
         # Hence, even in the "django" mode, we MUST use slots of the context of the parent component.
+        #
+        # NOTE: This applies only to the content that came from OUTSIDE of the component (the fill). The slot's
+        # own default content belongs to this component, so any `{% slot %}` tags nested in it must be resolved
+        # against the fills of this component, not the parent's.
         if (
-            component_ctx.registry.settings.context_behavior == ContextBehavior.DJANGO
+            slot_fill.is_filled
+            and component_ctx.registry.settings.context_behavior == ContextBehavior.DJANGO
             and component_ctx.outer_context is not None
             and _COMPONENT_CONTEXT_KEY in component_ctx.outer_context
         ):
